@@ -55,12 +55,12 @@ Qed.
 Lemma ex_valid : valid (with_bin (derive_cmd d) b_prog) = true. Proof. vm_compute. reflexivity. Qed.
 
 (** the line parses (computed), hence by [roundtrip_parse_sound] the derived parser returns the value *)
-Lemma ex_parses : exists m, parse_top (derive_cmd d) (b_prog :: argv) = OOk m /\ enum_ok_nodes (d_nodes d) m = true.
-Proof. eexists. split; vm_compute; reflexivity. Qed.
+Lemma ex_parses : exists m, parse_top (derive_cmd d) (b_prog :: argv) = OOk m.
+Proof. eexists. vm_compute; reflexivity. Qed.
 
 Theorem ex_roundtrip : derived_parse d (b_prog :: argv) = PValue v.
 Proof.
-  destruct ex_parses as [m [Hp He]]. apply parse_factor. exists m. split; [exact Hp|]. split; [exact He|].
+  destruct ex_parses as [m Hp]. apply parse_factor. exists m. split; [exact Hp|].
   exact (roundtrip_parse_sound d b_prog v argv m ex_struct ex_printable ex_ok ex_valid ex_print Hp).
 Qed.
 
